@@ -289,7 +289,7 @@ func c02Expected(c *c02Case) (map[string]int, int) {
 }
 
 func c02Shape(c *c02Case) string {
-	s := c.Level + "," + c.Build
+	s := c.Level + ":" + c.Build
 	dup := false
 	for _, sc := range c.Subs {
 		seen := map[string]bool{}
@@ -301,10 +301,10 @@ func c02Shape(c *c02Case) string {
 		}
 	}
 	if dup {
-		s += ",dup-addr"
+		s += ":dup-addr"
 	}
 	if c.Level != "rr" {
-		s += fmt.Sprintf(",strategy%d", c.Basic.Strategy)
+		s += fmt.Sprintf(":strategy%d", c.Basic.Strategy)
 	}
 	return s
 }
